@@ -663,7 +663,7 @@ pub async fn server_request<B: BodyBuf>(
         // late split: a few body pieces are read on the whole stream first
         let mut stage = RecvStage::Start;
         if let (Some(k), true) = (plan.late_split, plan.read_request) {
-            match server_recv_part::<B, _>(&mut stream, &actor, &probe, Some(k)).await {
+            match server_recv_part::<B, _>(&mut stream, &actor, &probe, RecvStage::Start, Some(k)).await {
                 Ok(st) => stage = st,
                 Err(()) => {
                     drop(stream);
@@ -684,7 +684,8 @@ pub async fn server_request<B: BodyBuf>(
         spawner.spawn(ractor.clone(), async move {
             let mut recv = recv;
             if read_request && stage != RecvStage::Done {
-                let _ = server_recv_half::<B, _>(&mut recv, &ractor, &p2).await;
+                let from = if stage == RecvStage::Trailers { RecvStage::Trailers } else { RecvStage::Start };
+                let _ = server_recv_part::<B, _>(&mut recv, &ractor, &p2, from, None).await;
             }
             drop(recv);
             p2.record(&ractor, "handles", Out::Dropped);
@@ -716,25 +717,35 @@ pub async fn server_request<B: BodyBuf>(
 pub enum RecvStage {
     Start,
     Body,
+    /// the body has ended (recv_data returned None), the trailers have not been asked for yet
+    Trailers,
     Done,
 }
+
+/// `late_split` value meaning: read the whole body on the whole stream, split, then ask the
+/// receiving half for the trailers
+pub const SPLIT_AFTER_BODY: usize = usize::MAX;
 
 async fn server_recv_half<B: BodyBuf, S: h3::quic::RecvStream>(
     s: &mut h3::server::RequestStream<S, B>,
     actor: &str,
     probe: &Probe,
 ) -> Result<(), ()> {
-    server_recv_part::<B, S>(s, actor, probe, None).await.map(|_| ())
+    server_recv_part::<B, S>(s, actor, probe, RecvStage::Start, None).await.map(|_| ())
 }
 
 async fn server_recv_part<B: BodyBuf, S: h3::quic::RecvStream>(
     s: &mut h3::server::RequestStream<S, B>,
     actor: &str,
     probe: &Probe,
+    from: RecvStage,
     max_pieces: Option<usize>,
 ) -> Result<RecvStage, ()> {
     let mut pieces = 0usize;
     loop {
+        if from == RecvStage::Trailers {
+            break;
+        }
         if max_pieces == Some(pieces) {
             return Ok(RecvStage::Body);
         }
@@ -757,6 +768,9 @@ async fn server_recv_part<B: BodyBuf, S: h3::quic::RecvStream>(
             Ok(None) => break,
             Err(_) => return Err(()),
         }
+    }
+    if max_pieces == Some(SPLIT_AFTER_BODY) && from != RecvStage::Trailers {
+        return Ok(RecvStage::Trailers);
     }
     let r = probe
         .call(actor, "recv_trailers", s.recv_trailers(), |r| match r {
@@ -964,11 +978,11 @@ pub async fn client_request<B: BodyBuf>(send: &mut CliSend<B>, plan: ReqPlan, pr
         let mut stream = stream;
         let ractor = format!("c:req#{}:recv", i);
         if client_send_half::<B, _>(&mut stream, &plan, &actor, &probe, i as u64).await.is_ok() && plan.read_response {
-            if let Ok(RecvStage::Body) = client_recv_part::<B, _>(&mut stream, &actor, &probe, RecvStage::Start, Some(k)).await {
+            if let Ok(st @ (RecvStage::Body | RecvStage::Trailers)) = client_recv_part::<B, _>(&mut stream, &actor, &probe, RecvStage::Start, Some(k)).await {
                 probe.record(&actor, "split", Out::Ok);
                 let (send_half, mut recv_half) = stream.split();
                 drop(send_half);
-                let _ = client_recv_part::<B, _>(&mut recv_half, &ractor, &probe, RecvStage::Body, None).await;
+                let _ = client_recv_part::<B, _>(&mut recv_half, &ractor, &probe, st, None).await;
                 drop(recv_half);
                 probe.record(&ractor, "handles", Out::Dropped);
                 probe.latch_done();
@@ -1082,6 +1096,9 @@ async fn client_recv_part<B: BodyBuf, S: h3::quic::RecvStream>(
     }
     let mut pieces = 0usize;
     loop {
+        if from == RecvStage::Trailers {
+            break;
+        }
         if max_pieces == Some(pieces) {
             return Ok(RecvStage::Body);
         }
@@ -1101,6 +1118,9 @@ async fn client_recv_part<B: BodyBuf, S: h3::quic::RecvStream>(
             Ok(None) => break,
             Err(_) => return Err(()),
         }
+    }
+    if max_pieces == Some(SPLIT_AFTER_BODY) && from != RecvStage::Trailers {
+        return Ok(RecvStage::Trailers);
     }
     let r = probe
         .call(actor, "recv_trailers", s.recv_trailers(), |r| match r {
